@@ -13,7 +13,7 @@ import hashlib
 import os
 
 from . import REPO
-from .symrt import BUILTIN_REBINDS
+from .symrt import BUILTIN_REBINDS, rebind_library_names
 
 MODEL_FILES = {
     "PlackettLuce": "openskill/models/weng_lin/plackett_luce.py",
@@ -79,6 +79,7 @@ def load(relpath, rebind=None, transforms=(), sym=True, modname=None):
     exec(code, ns)
     if sym:
         ns.update(BUILTIN_REBINDS)
+        rebind_library_names(ns)
     if rebind:
         ns.update(rebind)
     return ns
